@@ -1445,9 +1445,46 @@ Proof.
 Qed.
 Lemma drain_good n : forall e, Good e -> Good (drain n e).
 Proof. induction n as [|n IH]; intros e G; cbn [drain]; [exact G|]. destruct (queue e); [exact G|]. apply IH. now apply step_good. Qed.
+(* ---------- a tick: in this class timeout rules have no steps, a firing starts nothing ---------- *)
+Lemma teq_with_clock e c : teq e (with_clock e c). Proof. repeat split; auto. Qed.
+Lemma no_timeout_children e t k : SI e -> t < ntasks e -> children_in (tnode e t) (OTimeout k) = [].
+Proof.
+  intros H Ht. pose proof (SI_fnode e t H Ht) as F. unfold frag_node in F. repeat (apply andb_true_iff in F as [F ?]).
+  unfold children_in. rewrite filter_nil; [reflexivity|]. intros [kd c] Hc.
+  match goal with Hx : forallb _ (n_children (tnode e t)) = true |- _ => rewrite forallb_forall in Hx; specialize (Hx _ Hc) end.
+  cbn [fst snd] in *. repeat match goal with Hx : _ && _ = true |- _ => apply andb_true_iff in Hx as [Hx ?] end.
+  destruct kd as [|[o|]|k']; cbn in *; try discriminate; reflexivity.
+Qed.
+Lemma tick_good e adv : Good e -> Good (do_tick e adv).
+Proof.
+  intros G. unfold do_tick. set (e0 := with_clock e (clock e + adv)%Z).
+  assert (T0 : teq e e0) by apply teq_with_clock.
+  destruct (is (pstate e0) SRunning); [|exact (Good_teq _ _ T0 G)].
+  apply (Good_teq e); [|exact G]. eapply teq_trans; [|apply teq_persist].
+  set (ts := sort_by _ _).
+  assert (Hts : forall t, In t ts -> t < ntasks e).
+  { intros t Ht. unfold ts in Ht. apply In_sort_by in Ht. apply filter_In in Ht as [Ht _]. apply in_seq in Ht. unfold ntasks. cbn in Ht. cbn [length tasks with_clock e0] in Ht. exact (proj2 Ht). }
+  clearbody ts.
+  assert (Hfold : forall l ee, (forall t, In t l -> t < ntasks e) -> teq e ee ->
+            teq e (fold_left (fun ee t => fold_left (fun ee2 (r : nat * Z) =>
+                     if rule_fires (clock ee2) (t_start (tk ee2 t)) (t_tmo_done (tk ee2 t)) (is_completed (st ee2 t)) r
+                     then sched_nodes (add_tmo_done (add_ev ee2 (EFire t (fst r) (clock ee2) (t_start (tk ee2 t)) (snd r))) t (fst r))
+                                      (children_in (tnode ee2 t) (OTimeout (fst r))) t
+                     else ee2) (t_timeouts (tk ee t)) ee) l ee)).
+  { induction l as [|t l IHl]; intros ee Hl Te; cbn [fold_left]; [exact Te|]. apply IHl; [intros; apply Hl; now right|].
+    assert (Ht : t < ntasks e) by (apply Hl; now left).
+    generalize (t_timeouts (tk ee t)). intros rules. revert ee Te.
+    induction rules as [|r rules IHr]; intros ee Te; cbn [fold_left]; [exact Te|]. apply IHr.
+    destruct (rule_fires _ _ _ _ r); [|exact Te].
+    assert (Hnc : children_in (tnode ee t) (OTimeout (fst r)) = []).
+    { rewrite (teq_tnode _ _ t Te). apply no_timeout_children; [apply G | exact Ht]. }
+    rewrite Hnc. unfold sched_nodes. cbn [fold_left]. eapply teq_trans; [exact Te|].
+    eapply teq_trans; [apply teq_add_ev|]. unfold add_tmo_done. apply teq_tmod. reflexivity. }
+  apply Hfold; [exact Hts | exact T0].
+Qed.
 Lemma op_good e o : Good e -> frag_op o = true -> Good (apply_op e o).
 Proof.
-  intros G Ho. destruct o as [k | | i a opts | adv]; cbn [apply_op frag_op] in *; try discriminate.
+  intros G Ho. destruct o as [k | | i a opts | adv]; cbn [apply_op frag_op] in *; try discriminate; [| | | now apply tick_good].
   - unfold sched_pick. destruct (nth_error (queue e) k) as [i|] eqn:Ek; [|exact G]. apply step_good. apply Good_queue; [exact G | now apply pick_perm].
   - apply (Good_teq _ _ (teq_add_ev _ _)). now apply drain_good.
   - now apply action_good.
